@@ -549,10 +549,11 @@ func concExec(p concPlan) *concOutcome {
 		teardown(cc)
 		return out
 	}
-	var wg sync.WaitGroup
-	wg.Add(2)
-	go func() { defer wg.Done(); ap.sender(cs) }()
-	go func() { defer wg.Done(); ap.receiver(cs) }()
+	// (plain channels rather than a sync.WaitGroup: see notes/C18.md on the
+	// go1.25.0 runtime spin in synctest's WaitGroup association)
+	sDone, rDone := make(chan struct{}), make(chan struct{})
+	go func() { defer close(sDone); ap.sender(cs) }()
+	go func() { defer close(rDone); ap.receiver(cs) }()
 
 	snapshot := func() []*concAttempt {
 		srvState.mu.Lock()
@@ -685,7 +686,8 @@ func concExec(p concPlan) *concOutcome {
 	}
 	close(ap.abort)
 	cancel()
-	wg.Wait()
+	<-sDone
+	<-rDone
 	synctest.Wait()
 	srvState.mu.Lock()
 	for _, at := range srvState.atts {
